@@ -101,6 +101,40 @@ def build_map(cfg):
     return m, ad, objs
 
 
+def _dance(s):
+    """text -> the native string a WSGI server puts into environ (UTF-8 bytes decoded as latin-1)"""
+    return s.encode("utf-8").decode("latin-1")
+
+
+def environ_for(cfg, path, q, method):
+    """The WSGI environ a server would hand over for a request to the bound application: SCRIPT_NAME / PATH_INFO
+    as latin-1 decoded bytes, QUERY_STRING raw, HTTP_HOST = [subdomain.]server[:port], websocket upgrade headers
+    for ws / wss."""
+    b = cfg["bind"]
+    scheme = b["scheme"]
+    host = b.get("env_host") or ((b["sub"] + "." if b["sub"] else "") + b["server"])
+    name, _, port = host.partition(":")
+    env = {"wsgi.url_scheme": {"ws": "http", "wss": "https"}.get(scheme, scheme), "REQUEST_METHOD": method,
+           "SCRIPT_NAME": _dance(b["script"]), "PATH_INFO": _dance(path),
+           "QUERY_STRING": q["s"] if q["kind"] == "str" else "",
+           "HTTP_HOST": host, "SERVER_NAME": name, "SERVER_PORT": port or ("443" if scheme in ("https", "wss") else "80"),
+           "SERVER_PROTOCOL": "HTTP/1.1"}
+    if scheme in ("ws", "wss"):
+        env["HTTP_CONNECTION"] = "keep-alive, Upgrade"
+        env["HTTP_UPGRADE"] = "websocket"
+    return env
+
+
+def adapter_via_environ(m, cfg, path, q, method):
+    b = cfg["bind"]
+    env = environ_for(cfg, path, q, method)
+    if b["via"] == "environ":
+        return m.bind_to_environ(env)
+    if b["via"] == "environ_sn":
+        return m.bind_to_environ(env, server_name=b.get("sn_arg") or b["server"])
+    return m.bind_to_environ(env, server_name=b.get("sn_arg") or b["server"], subdomain=b["sub"])
+
+
 def _val_text(v):
     if isinstance(v, float):
         return repr(v)
@@ -131,15 +165,15 @@ def observe(ad, objs, path, method, query=None):
 
 
 def deliver(cfg, url_cps):
-    """What a client + server do with a Location: take the URL path, cut the script root, percent-decode."""
+    """What a client + server do with a Location: take the URL path, percent-decode it, cut the script root."""
     url = "".join(map(chr, url_cps))
     sp = urlsplit(url)
     root = "/" + cfg["bind"]["script"].strip("/")
     root = root if root.endswith("/") else root + "/"
-    p = sp.path
+    p = unquote(sp.path)
     if p.startswith(root):
         p = p[len(root) - 1:]
-    return unquote(p)
+    return p
 
 
 def query_of(q):
@@ -150,8 +184,11 @@ def query_of(q):
     return None
 
 
-def run_case(cfg, ad, objs, path, method, q, follow=True):
-    r = observe(ad, objs, path, method, query_of(q))
+def run_case(cfg, ad, objs, path, method, q, follow=True, first_from_adapter=False):
+    if first_from_adapter:
+        r = observe(ad, objs, None, None, query_of(q) if q["kind"] == "map" else None)
+    else:
+        r = observe(ad, objs, path, method, query_of(q))
     hops = []
     cur = r
     while follow and cur["kind"] == "redirect" and len(hops) < 5:
@@ -196,10 +233,17 @@ def make_cfg(rules, strict=True, merge=True, rd=True, bind=None):
 def run_group(arg):
     """(cfg, c03, [(path, method, q)]) -> [cfg line, match lines...] (executed in a worker process)"""
     cfg, c03, cases = arg
-    _, ad, objs = build_map(cfg)
+    m, ad, objs = build_map(cfg)
+    via = cfg["bind"].get("via", "bind")
     out = [enc_cfg(cfg, c03)]
     for i, (path, method, q) in enumerate(cases):
-        ln = run_case(cfg, ad, objs, path, method, q)
+        if via == "bind":
+            ln = run_case(cfg, ad, objs, path, method, q)
+        else:
+            # the adapter is created from the request's WSGI environ; the first match takes path, method and query
+            # string from it (no arguments), the follow-up hops are delivered to the same adapter explicitly
+            ead = adapter_via_environ(m, cfg, path, q, method)
+            ln = run_case(cfg, ead, objs, path, method, q, first_from_adapter=True)
         ln["i"] = i
         out.append(ln)
     return out
@@ -1034,3 +1078,44 @@ def make_histories(rng, quick):
             s, mg = rng.choice([(True, True), (True, True), (False, True), (True, False), (False, False)])
             out.append((make_cfg([], s, mg), ops))
     return out
+
+
+# ---------------------------------------------------------------------------- C12: adapters created from a WSGI environ
+ENV_BINDS = [
+    {"scheme": "http", "server": "example.org", "script": "/caf\u00e9", "sub": "", "via": "environ"},
+    {"scheme": "https", "server": "example.org:8443", "script": "/\u65e5\u672c/", "sub": "", "via": "environ"},
+    {"scheme": "http", "server": "example.org:8080", "script": "/my app", "sub": "www", "via": "environ_sn"},
+    {"scheme": "http", "server": "example.org", "script": "/100%", "sub": "", "via": "environ"},
+    {"scheme": "https", "server": "example.org", "script": "", "sub": "api", "via": "environ_sn_sub"},
+    {"scheme": "http", "server": "example.org", "script": "/", "sub": "", "via": "environ", "env_host": "example.org:80"},
+    {"scheme": "https", "server": "example.org", "script": "/app/", "sub": "a.b", "via": "environ_sn", "sn_arg": "Example.ORG:443"},
+    {"scheme": "wss", "server": "example.org:9000", "script": "/\u00fc/x y/", "sub": "", "via": "environ"},
+    {"scheme": "ws", "server": "localhost:5000", "script": "/a/b", "sub": "", "via": "environ"},
+    {"scheme": "http", "server": "example.org", "script": "/caf\u00e9/\u65e5\u672c", "sub": "", "via": "bind"},
+    {"scheme": "https", "server": "example.org:444", "script": "/my app/", "sub": "www", "via": "bind"},
+]
+
+
+# ---------------------------------------------------------------------------- C12: defaults families (argument subsets)
+def defaults_families():
+    """Endpoints with 2-3 rules over the argument sets {}, {p}, {s}, {p, s} whose defaults cover subsets:
+       R0 '/f/' + D, Rp '/f/page/<int:p>' + D, Rs '/f/sort/<s>' + D, Rps '/f/<s>/<int:p>'.
+    Every combination of 2-3 different shapes and of their defaults."""
+    dp, ds = _d("p", 1), _d("s", "new")
+    shapes = {
+        "R0": [rule([lit("f")], branch=True, endpoint="fam", defaults=D) for D in ([], [dp], [ds], [dp, ds])],
+        "Rp": [rule([lit("f"), lit("page"), var("int", "p")], endpoint="fam", defaults=D) for D in ([], [ds])],
+        "Rs": [rule([lit("f"), lit("sort"), var("string", "s")], endpoint="fam", defaults=D) for D in ([], [dp])],
+        "Rps": [rule([lit("f"), var("string", "s"), var("int", "p")], endpoint="fam")],
+    }
+    fams = []
+    for k in (2, 3):
+        for names in itertools.combinations(shapes, k):
+            for combo in itertools.product(*[shapes[n] for n in names]):
+                fams.append([dict(r) for r in combo])
+    return fams
+
+
+FAMILY_PATHS = ["/f/", "/f", "/f/page/1", "/f/page/2", "/f/page/01", "/f/page/1/", "/f/sort/new", "/f/sort/old", "/f/sort/new/",
+                "/f/new/1", "/f/new/2", "/f/old/1", "/f/old/2", "/f/new/01", "/f/new/1/", "/f//new/1", "/f/page//1",
+                "/f/sort/1", "/f/page/new", "//evil.com/f/new/1", "/f/sort/page", "/f/page/1/2"]
